@@ -345,6 +345,8 @@ def setitem(eng, base, idx, val):
     if hasattr(base, "__pyvc_setitem__"):
         return base.__pyvc_setitem__(eng, idx, val)
     check_frame(eng, base)
+    if isinstance(idx, (SArr, NArr, PList)) and getattr(base, "view_of", None) is None and kind_of(val) is not None:
+        return _vector_store(eng, base, idx, val)
     if isinstance(idx, (SArr, slice, PList)):
         raise Unsupported("vector store into a symbolic array")
     iz = norm_index(eng, idx, base.n, "array store")
@@ -359,6 +361,54 @@ def setitem(eng, base, idx, val):
         base.arr = lam(lambda i: parent.get(i + lo).z, base.kind)
         return
     base.arr = z3.Store(base.arr, iz, vz)
+
+
+def _vector_store(eng, base, idx, val):
+    """`a[idx] = scalar` on a 1-D array of symbolic length, idx a boolean mask of the same length or an integer index array / list:
+    exactly the selected cells get the value, every other cell keeps its content (numpy: repeated positions are harmless for a
+    scalar).  Positions must lie in [0, len(a)) (safety obligation; negative positions are not modelled)."""
+    from .models import norm_index
+
+    if base.kind == "int" and kind_of(val) == "real":
+        raise Unsupported("store of a real into an int array")
+    vz, old, n = to_z3(val, base.kind), base.arr, base.nz()
+    i, j = z3.Int(fresh_name("vs_i")), z3.Int(fresh_name("vs_j"))
+    if isinstance(idx, SArr) and idx.kind == "bool":
+        used(eng, "boolean-mask store a[mask] = scalar writes exactly the cells where the mask is set (mask as long as the array)")
+        if not eng.spec_mode:
+            eng.prove(eng.site("mask-as-long-as-the-array"), idx.nz() == n, "safety", "boolean index did not match the indexed array")
+        m = idx.arr
+        base.arr = z3.Lambda([i], z3.If(z3.Select(m, i), vz, z3.Select(old, i)))
+        return
+    if isinstance(idx, SArr) and idx.kind == "int":
+        used(eng, "index-array store a[idx] = scalar writes exactly the cells idx names (hit array defined with a witness position per written cell)")
+        m, A = idx.nz(), idx.arr
+        if not eng.spec_mode:
+            eng.prove(eng.site("index-in-bounds"), z3.ForAll([j], z3.Implies(z3.And(j >= 0, j < m), z3.And(z3.Select(A, j) >= 0, z3.Select(A, j) < n))), "safety", "index array store")
+        tag = fresh_name("vst")
+        hit = z3.Const(tag + "_hit", z3.ArraySort(z3.IntSort(), z3.BoolSort()))
+        wit = z3.Function(tag + "_wit", z3.IntSort(), z3.IntSort())
+        eng.assume(z3.ForAll([j], z3.Implies(z3.And(j >= 0, j < m), z3.Select(hit, z3.Select(A, j)))))
+        eng.assume(z3.ForAll([i], z3.Implies(z3.Select(hit, i), z3.And(wit(i) >= 0, wit(i) < m, z3.Select(A, wit(i)) == i))))
+        base.arr = z3.Lambda([i], z3.If(z3.Select(hit, i), vz, z3.Select(old, i)))
+        return
+    items = idx.items if isinstance(idx, (NArr, PList)) else None
+    if items is None or (isinstance(idx, NArr) and idx.ndim != 1) or not all(kind_of(x) in ("int", "bool") for x in items):
+        raise Unsupported("vector store into a symbolic array")
+    if items and all(kind_of(x) == "bool" for x in items):  # a concrete-length boolean mask
+        used(eng, "boolean-mask store a[mask] = scalar writes exactly the cells where the mask is set (mask as long as the array)")
+        if not eng.spec_mode:
+            eng.prove(eng.site("mask-as-long-as-the-array"), n == len(items), "safety", "boolean index did not match the indexed array")
+        arr = old
+        for q, b in enumerate(items):
+            arr = z3.Store(arr, q, z3.If(to_z3(b, "bool"), vz, z3.Select(old, q)))
+        base.arr = arr
+        return
+    used(eng, "index-list store a[[i, j, ...]] = scalar writes the named cells")
+    arr = old
+    for x in items:
+        arr = z3.Store(arr, norm_index(eng, x, base.n, "array store"), vz)
+    base.arr = arr
 
 
 # ------------------------------------------------------------------ methods
